@@ -1,6 +1,9 @@
 import Ivg.Lemmas.LoopC01
 import Ivg.Lemmas.Header
-import Ivg.Gen.Tie
+import Ivg.Gen.Tie.Dc1
+import Ivg.Gen.Tie.DefaultViewBox
+import Ivg.Gen.Tie.DrawOps
+import Ivg.Gen.Tie.Magic
 import Ivg.Obligations
 /-!
 # C01 — encode then decode reproduces the drawing program
